@@ -424,6 +424,18 @@ def g_round(ctx, rng, i):
             _rd(ctx, np.allclose(got, want, atol=1e-4), [c2, hr, vr], f"Ellipse.foci = {got}, expected {want}")
         else:
             _rd(ctx, False, [c2, hr, vr], f"Ellipse.foci not two real points: {fo}")
+    # integer-typed centres with radii whose square is not an integer (dtype promotion)
+    ci = [int(x) for x in gen.coords(rng, (3,), 9, "int")]
+    rr = float(gen.pick(rng, [0.5, 2.5, 1.25, 3.7]))
+    si = g.Sphere(g.Point(*ci), rr)
+    _rd(ctx, abs(si.radius - rr) <= 1e-9 * max(1, rr), [ci, rr], f"Sphere(int centre).radius = {si.radius} vs {rr}")
+    ki = g.Circle(g.Point(*ci[:2]), rr)
+    _rd(ctx, abs(ki.radius - rr) <= 1e-9 * max(1, rr), [ci[:2], rr], f"Circle(int centre).radius = {ki.radius} vs {rr}")
+    g.Ellipse(g.Point(*ci[:2]), rr, rr + 0.25)
+    g.Sphere(radius=rr)
+    g.Circle(radius=rr)
+    g.Cone(g.Point(*ci), g.Point(*(np.array(ci) + gen.nonzero_vec(rng, 3, 3))), rr)
+    g.Cylinder(g.Point(*ci), g.Point(*gen.nonzero_vec(rng, 3, 3).tolist()), rr)
     c3 = gen.coords(rng, (3,), 9, mode).astype(float)
     s = g.Sphere(g.Point(*c3), r)
     _rd(ctx, np.allclose(_cart(s.center), c3, atol=1e-9), [c3, r], f"Sphere.center = {_cart(s.center)}, constructed with {c3}")
